@@ -157,6 +157,17 @@ def tags_octets(taglist):
     return bytes(pd.pduData)
 
 
+def _carrier(number):
+    return type("AnyCarrier%d" % number, (CD.Sequence,),
+                {"sequenceElements": [CD.Element("value", CD.Any, number), CD.Element("tail", PD.Unsigned, 7)]})
+
+
+# a property value on the wire: the value inside an Any inside context N, followed by something else (WriteProperty,
+# ReadPropertyACK, PropertyValue ... all have this form; N = 0..3 are the numbers the standard uses for it)
+CARRIERS = [(n, _carrier(n)) for n in (0, 1, 2, 3)]
+CARRIER_TAIL = bytes([0x79, 0x05])
+
+
 class Comparer(object):
     def __init__(self, ctx):
         self.ctx = ctx
@@ -521,6 +532,29 @@ def check_value(ctx, tname, v, reg=None, choice=None, variant="list", observe=No
         if out:
             raise Fail("any-cast", "cast_out-value-differs", "%s: %s" % (out[0][0] or ".", out[0][1]),
                        path=re.sub(r"\[\d+\]", "[]", out[0][0]))
+        # the Any itself on the wire, inside each of the enclosing context numbers and followed by another element:
+        # Any.decode has to find the end of the value whatever numbers the value opens and closes inside
+        for number, carrier_cls in CARRIERS:
+            exp = bytes([(number << 4) | 0x0E]) + data + bytes([(number << 4) | 0x0F]) + CARRIER_TAIL
+            try:
+                wire = _encode_plain(carrier_cls(value=carrier, tail=5))
+            except Exception as err:
+                raise Fail("any-on-the-wire", _exc_kind("encode-raises", err), _msg(err))
+            if wire != exp:
+                raise Fail("any-on-the-wire", "octets-differ", "context %d: %s, expected %s" % (number, wire.hex(), exp.hex()))
+            try:
+                tl = PD.TagList()
+                tl.decode(PDUData(wire))
+                back2 = carrier_cls()
+                back2.decode(tl)
+                left = len(tl.tagList)
+                held2 = tags_octets(back2.value.tagList)
+                tail = back2.tail
+            except Exception as err:
+                raise Fail("any-on-the-wire", _exc_kind("decode-raises", err), "context %d: %s" % (number, _msg(err)))
+            if held2 != data or tail != 5 or left:
+                raise Fail("any-on-the-wire", "decoded-differs", "context %d: Any holds %s, expected %s; tail %r; %d tags left"
+                           % (number, held2.hex(), data.hex(), tail, left))
     # -- ArrayOf item access
     if ti.kind == "arrayof":
         check_array_items(ctx, ti, v, obj, cmp_)
